@@ -90,29 +90,31 @@ def check_point(point, bounds, tol):
 def alphabet(ctx):
     vals = list(BASE)
     if ctx.thorough:
-        vals += [-3, -0.25, 0.25, 0.75, 2.5, 1024, -1024.5]
+        vals += [-3, -0.25, 0.25, 0.75, 2.5, 1024, -1024.5, 300.25, -17.75, 2.0 ** -10, 65535.5,
+                 float(1 << 20), -float(1 << 20) - 0.5]
     extra = core.seeded_ints(ctx.seed, "c18.v", 2, 6)
     vals += [v / 8 for v in extra]
     return sorted(set(vals))
 
 
 def _scalar_chunk(args):
-    ranges, vals = args
+    ranges, vals = args[:2]
+    tols = TOLS + list(args[2]) if len(args) > 2 else TOLS
     part = core.Part()
     for low, high in ranges:
         probes = set(vals)
-        for tol in TOLS:
+        for tol in tols:
             probes |= {low - tol, low + tol, high - tol, high + tol,
                        low - tol - 0.125, high + tol + 0.125}
         # a hair's breadth on either side of every decision threshold (the thresholds are
         # exact floats because the alphabet is dyadic; the probes are just some nearby floats)
-        for edge in sorted({low - tol for tol in TOLS} | {high + tol for tol in TOLS} |
+        for edge in sorted({low - tol for tol in tols} | {high + tol for tol in tols} |
                            {low, high}):
             probes |= {math.nextafter(edge, -math.inf), math.nextafter(edge, math.inf)}
             for tiny in (1e-12, 1e-10, 1e-9, 3e-9, 1e-6):
                 probes |= {edge - tiny, edge + tiny}
         for value in sorted(probes):
-            for tol in TOLS:
+            for tol in tols:
                 variants = [(value, low, high, tol)]
                 if all(float(v).is_integer() for v in (value, low, high)):
                     variants.append((int(value), int(low), int(high), tol))
@@ -128,7 +130,7 @@ def _scalar_chunk(args):
                         part.violation(f"{clause}:{case!r}", msg,
                                        {"kind": "scalar", "case": list(case)})
     if ranges:
-        part.sample({"range": list(ranges[0]), "values": vals[:6], "tolerances": TOLS}, limit=1)
+        part.sample({"range": list(ranges[0]), "values": vals[:6], "tolerances": tols}, limit=1)
     return part
 
 
@@ -154,8 +156,9 @@ def _dispatch(job):
 def run(ctx):
     vals = alphabet(ctx)
     ranges = [(lo, hi) for lo in vals for hi in vals if lo <= hi]
-    jobs = [("scalar", (chunk, vals)) for chunk in core.split(ranges, 32)]
-    few = [-1, 0, 0.5, 2]
+    more_tols = [2.0 ** -20, 1024] if ctx.thorough else []     # bound +- tolerance stays exact
+    jobs = [("scalar", (chunk, vals, more_tols)) for chunk in core.split(ranges, 32)]
+    few = [-1, 0, 0.5, 2] if not ctx.thorough else [-1024.5, -1, 0, 0.5, 2, float(1 << 20)]
     rects = [((x0, y0), (x1, y1)) for x0 in few for x1 in few if x0 <= x1
              for y0 in few for y1 in few if y0 <= y1]
     jobs += [("point", (chunk, vals)) for chunk in core.split(rects, 32)]
@@ -170,8 +173,9 @@ def run(ctx):
         "distinct_nontrivial": cnt.get("nontrivial", 0),
         "rule": "all ranges lower<=upper over a dyadic alphabet x (alphabet values + bound +- "
                 "tolerance + one quantum beyond + the neighbouring floats and 1e-12..1e-6 either side "
-                "of every threshold) x 4 tolerances, as floats, ints and mixed; all "
-                "lattice points x 100 rectangles x 4 tolerances for the 2-D test; non-trivial = "
+                "of every threshold) x 4 (thorough 6) tolerances, as floats, ints and mixed; all "
+                "lattice points x 100 (thorough 441) rectangles x 4 tolerances for the 2-D test, "
+                "each also through a bounds object kept and edited in place; non-trivial = "
                 "value on a bound or outside the range",
         "samples": core.rotate(part.samples, ctx.seed, 4),
         "scalar_cases": cnt.get("scalar_cases", 0),
